@@ -117,3 +117,29 @@ fn dzst_histories() {
     assert_eq!(m.remove(&()), Some(()));
     assert!(m.is_empty());
 }
+
+/// D5 (C17): `Extend::extend` on a non-empty map computed `(size_hint().0 + 1) / 2` unchecked. An iterator whose lower
+/// size bound is usize::MAX (e.g. anything built on `0u64..`, or a source with a wrong hint) made a debug build panic with
+/// "attempt to add with overflow" while a release build wrapped to 0, reserved nothing and went on inserting.
+/// After the fix both profiles ask `reserve` for usize::MAX / 2 elements and get the documented capacity-overflow panic.
+struct Lying(u8);
+impl Iterator for Lying {
+    type Item = (u8, u8);
+    fn next(&mut self) -> Option<(u8, u8)> {
+        if self.0 == 0 { None } else { self.0 -= 1; Some((self.0, self.0)) }
+    }
+    fn size_hint(&self) -> (usize, Option<usize>) { (usize::MAX, None) }
+}
+#[test]
+fn d5_extend_size_hint_overflow() {
+    let mut m: griddle::HashMap<u8, u8> = griddle::HashMap::new();
+    m.insert(200, 1);
+    let r = std::panic::catch_unwind(std::panic::AssertUnwindSafe(|| m.extend(Lying(2))));
+    // the same outcome in both profiles: the documented capacity-overflow panic, contents untouched
+    let msg = match r {
+        Ok(()) => String::from("returned normally"),
+        Err(e) => e.downcast_ref::<&str>().map(|s| s.to_string()).or(e.downcast_ref::<String>().cloned()).unwrap_or_default(),
+    };
+    assert!(msg.contains("capacity overflow"), "extend with a usize::MAX size hint: {}", msg);
+    assert_eq!(m.len(), 1);
+}
